@@ -132,11 +132,14 @@ struct BlendRowMask;
 
 fn blend_row_mask<T: blend::Blend>(src: &[u32], mask: &[u8], dst: &mut [u32]) {
     for ((dst, src), mask) in dst.iter_mut().zip(src).zip(mask) {
-        *dst = lerp(
-            *dst,
-            T::blend(*src, *dst),
-            alpha_to_alpha256(*mask as u32),
-        );
+        // lerp() rounds down, so even a weight of 1/256 would darken uncovered pixels
+        if *mask != 0 {
+            *dst = lerp(
+                *dst,
+                T::blend(*src, *dst),
+                alpha_to_alpha256(*mask as u32),
+            );
+        }
     }
 }
 
@@ -151,12 +154,14 @@ struct BlendRowMaskClip;
 
 fn blend_row_mask_clip<T: blend::Blend>(src: &[u32], mask: &[u8], clip: &[u8], dst: &mut [u32]) {
     for (((dst, src), mask), clip) in dst.iter_mut().zip(src).zip(mask).zip(clip) {
-        *dst = alpha_lerp(
-            *dst,
-            T::blend(*src, *dst),
-            *mask as u32,
-            *clip as u32
-        );
+        if *mask != 0 && *clip != 0 {
+            *dst = alpha_lerp(
+                *dst,
+                T::blend(*src, *dst),
+                *mask as u32,
+                *clip as u32
+            );
+        }
     }
 }
 
